@@ -19,6 +19,8 @@ pub struct Case {
     /// two merge schedules over {0,1,2} with repetitions, applied to a copy of replica 0
     pub sched_a: Vec<usize>,
     pub sched_b: Vec<usize>,
+    /// which wall clock the process shows while the case runs (see `model::with_wall`)
+    pub wall: u8,
 }
 
 pub struct C03;
@@ -59,14 +61,15 @@ impl Prop for C03 {
                 *p = Some(other);
             }
         }
-        Case { sources, pool, plans, pre, sched_a: sched(src), sched_b: sched(src) }
+        let (sched_a, sched_b) = (sched(src), sched(src));
+        Case { sources, pool, plans, pre, sched_a, sched_b, wall: src.below(3) as u8 }
     }
 
     fn run(&self, case: &Case) -> Outcome {
-        match case.sources {
+        crate::model::with_wall(case.wall, || match case.sources {
             1 => run_n::<1>(case),
             _ => run_n::<2>(case),
-        }
+        })
     }
 
     fn describe(&self, case: &Case) -> Value {
